@@ -277,6 +277,27 @@ theorem step_inv (b : BlockTime) (hb : TimeInv b) (op : TimeOp) : TimeInv (stepT
       · intro t ht
         exact hu.1 t ht
 
+  | qrItem ts other =>
+    have hu := upd_inv b hb ts
+    simp only [stepTime]
+    split
+    · intro t ht
+      rw [mem_times_qr] at ht
+      rcases ht with ht | ht
+      · exact hu.1 t ht
+      · exact hu.2 t ht
+    · exact hb
+  | mmItem ts other =>
+    have hu := upd_inv b hb ts
+    simp only [stepTime]
+    split
+    · intro t ht
+      rw [mem_times_mm] at ht
+      rcases ht with ht | ht
+      · exact hu.1 t ht
+      · exact hu.2 t ht
+    · exact hb
+
 /-- In every block the library builds (any arrival order of timed and untimed records, any
     hint settings, any number of clears) no stored record time is earlier than the block's
     earliest time. -/
